@@ -7,6 +7,12 @@ import Nstd.Codec.LemmasUtf8
 namespace Nstd.Codec
 open Nstd.Generated.Codec
 
+/-- the values of a `UInt8` list are bytes -/
+theorem bytes_lt (bs : List UInt8) : ∀ b ∈ bs.map UInt8.toNat, b < 256 := by
+  intro b hb
+  obtain ⟨x, _, rfl⟩ := List.mem_map.mp hb
+  exact x.toNat_lt
+
 /-! ### hex -/
 theorem hexAlphabet_upper : ∀ n, n < 16 → rd hexAlphabet n = .ok (Spec.upperHexDigit n) := by decide
 theorem hexHi_eq (b : Nat) : hexHi b = b / 16 := Nat.shiftRight_eq_div_pow b 4
@@ -15,23 +21,19 @@ theorem hexLo_eq (b : Nat) : hexLo b = b % 16 := Nat.and_two_pow_sub_one_eq_mod 
 /-! ### base64 tables -/
 set_option maxRecDepth 4000 in
 theorem b64_table_len : base64de.length = 123 := by decide
-theorem b64_guard_alpha : ∀ i, i < 64 → base64GuardRejects (Spec.b64Char i) = false := by decide +kernel
-theorem b64_table_alpha : ∀ i, i < 64 → rdTable base64de (base64Index (Spec.b64Char i)) = .ok i := by decide +kernel
-theorem b64_guard_pad : base64GuardRejects 61 = false := by decide
-theorem b64_table_pad : rdTable base64de (base64Index 61) = .ok base64Invalid := by decide +kernel
-theorem b64_pad_eq : base64Pad = 61 := rfl
-theorem b64_invalid_eq : base64Invalid = 255 := rfl
-theorem b64_mask_eq : base64LenMask = 3 := rfl
+/-- the generated per-byte tests (`b64Byte`, in the source order of guard / table read / marker / pad tests)
+    map every alphabet character to its value ... -/
+theorem b64Byte_char : ∀ v, v < 64 → b64Byte (Spec.b64Char v) = .ok (.val v) := by decide +kernel
+/-- ... leave the loop at `=` ... -/
+theorem b64Byte_pad : b64Byte 61 = .ok .stop := by decide +kernel
+/-- ... and never index the decode table out of bounds, whatever the byte (this is D26: false for the signed
+    comparison, which lets bytes >= 0x80 reach `base64de[128..255]`) -/
+theorem b64Byte_no_oob : ∀ b, b < 256 → b64Byte b ≠ .oob := by decide +kernel
 
-/-- whatever byte passes the guard indexes inside the table (this is D26: false for the signed comparison) -/
-theorem b64_index_in_table (b : Nat) (h : base64GuardRejects b = false) :
-    ∃ c, rdTable base64de (base64Index b) = .ok c := by
-  unfold base64GuardRejects at h
-  rw [decide_eq_false_iff_not] at h
-  unfold base64Index rdTable
-  have hb : b < base64de.length := by rw [b64_table_len]; omega
-  rw [if_pos (by omega)]
-  exact ⟨_, rd_ok (by simpa using hb)⟩
+theorem b64Byte_ok (b : Nat) (h : b < 256) : ∃ s, b64Byte b = .ok s := by
+  cases hb : b64Byte b with
+  | ok s => exact ⟨s, rfl⟩
+  | oob => exact absurd hb (b64Byte_no_oob b h)
 
 /-! ### bit identities of the 4 -> 3 regrouping (small domains) -/
 theorem b64_byte0 : ∀ a, a < 256 → ∀ h, h < 16 →
@@ -56,15 +58,25 @@ theorem rd_set_self {out : List Nat} {j v : Nat} (h : j < out.length) : rd (out.
 theorem and3 (i : Nat) : i &&& 3 = i % 4 := Nat.and_two_pow_sub_one_eq_mod i 2
 theorem phase_eq (i : Nat) : b64Phase i = i % 4 := and3 i
 
+/-- the generated length test rejects exactly the lengths that are not a multiple of four -/
+theorem lenRejects_eq (n : Nat) : b64LenRejects n = decide (n % 4 ≠ 0) := by
+  first
+  | rfl
+  | (unfold b64LenRejects; rw [and3])
+
+/-- the generated `reserve` request holds the 3 bytes per 4 symbols the loop stores -/
+theorem reserve_enough (n : Nat) (h : n % 4 = 0) : 3 * (n / 4) ≤ b64Reserve n := by
+  unfold b64Reserve
+  omega
+
 theorem b64Loop_alpha (v : Nat) (rest : List Nat) (i j : Nat) (out : List Nat) (hv : v < 64) :
     b64Loop (Spec.b64Char v :: rest) i j out =
       (b64Switch i v j out).bind fun r => b64Loop rest (i + 1) r.1 r.2 := by
-  rw [b64Loop, b64_guard_alpha v hv, if_neg Bool.false_ne_true, b64_table_alpha v hv, Res.bind_ok,
-    if_neg (by rw [b64_invalid_eq]; omega)]
+  rw [b64Loop, b64Byte_char v hv, Res.bind_ok]
 
 theorem b64Loop_pad (rest : List Nat) (i j : Nat) (out : List Nat) :
     b64Loop (61 :: rest) i j out = .ok (some (j, out)) := by
-  rw [b64Loop, b64_guard_pad, if_neg Bool.false_ne_true, b64_table_pad, Res.bind_ok, if_pos rfl, if_pos b64_pad_eq.symm]
+  rw [b64Loop, b64Byte_pad, Res.bind_ok]
 
 theorem sw0 (i c j : Nat) (out : List Nat) (hi : i % 4 = 0) (hj : j < out.length) :
     b64Switch i c j out = .ok (j, out.set j (b64Set0 c)) := by
@@ -149,7 +161,7 @@ theorem take3of3 (out : List Nat) (j a b c : Nat) (h : j + 2 < out.length) :
 
 theorem b64_decode_gen (bs : List Nat) :
     (∀ b ∈ bs, b < 256) → ∀ (i j : Nat) (out : List Nat), i % 4 = 0 →
-      j + (Spec.rfc4648Encode bs).length ≤ out.length →
+      j + 3 * ((Spec.rfc4648Encode bs).length / 4) ≤ out.length →
       ∃ out', b64Loop (Spec.rfc4648Encode bs) i j out = .ok (some (j + bs.length, out')) ∧
         out'.take (j + bs.length) = out.take j ++ bs := by
   induction bs using Spec.rfc4648Encode.induct with
@@ -182,6 +194,7 @@ theorem b64_decode_gen (bs : List Nat) :
     have hb' : b < 256 := hb b (by simp)
     have hc : c < 256 := hb c (by simp)
     have hrest : ∀ x ∈ rest, x < 256 := fun x hx => hb x (by simp [hx])
+    have hmod := enc_length_mod rest
     simp only [Spec.rfc4648Encode, List.length_cons] at hl ⊢
     rw [b64_four _ _ _ _ _ _ _ _ (by omega) (by omega) (by omega) (by omega) hi (by omega)]
     have e0 := b64_byte0 a ha (b / 16) (by omega)
@@ -235,16 +248,17 @@ theorem fromHex_upper (bs : List Nat) (h : ∀ b ∈ bs, b < 256) : fromHex bs =
 theorem fromBase64_rfc (bs : List Nat) (hb : ∀ b ∈ bs, b < 256) :
     fromBase64 (Spec.rfc4648Encode bs) = .ok bs := by
   unfold fromBase64
-  rw [b64_mask_eq, and3, enc_length_mod, if_neg (by simp)]
-  obtain ⟨out', h1, h2⟩ := b64_decode_gen bs hb 0 0 (List.replicate (Spec.rfc4648Encode bs).length 0) rfl (by simp)
+  have hmod := enc_length_mod bs
+  rw [lenRejects_eq, if_neg (by simp [hmod])]
+  obtain ⟨out', h1, h2⟩ := b64_decode_gen bs hb 0 0 (List.replicate (b64Reserve (Spec.rfc4648Encode bs).length) 0) rfl
+    (by rw [List.length_replicate, Nat.zero_add]; exact reserve_enough _ hmod)
   rw [h1, Res.bind_ok]
   simp only [Nat.zero_add, List.take_zero, List.nil_append] at h2 ⊢
   rw [h2]
 
-
-
-theorem b64Switch_ok (i c j : Nat) (out : List Nat) (hj : j = 3 * (i / 4) + (i % 4 - 1))
-    (hi : i < out.length) (hn : out.length % 4 = 0) :
+/-! ### bounds of every table read and every `out[j]` access, for arbitrary input bytes -/
+theorem b64Switch_ok (i c j n : Nat) (out : List Nat) (hj : j = 3 * (i / 4) + (i % 4 - 1))
+    (hi : i < n) (hn : n % 4 = 0) (hcap : 3 * (n / 4) ≤ out.length) :
     ∃ j' out', b64Switch i c j out = .ok (j', out') ∧ out'.length = out.length ∧
       j' = 3 * ((i + 1) / 4) + ((i + 1) % 4 - 1) := by
   unfold b64Switch
@@ -265,36 +279,33 @@ theorem b64Switch_ok (i c j : Nat) (out : List Nat) (hj : j = 3 * (i / 4) + (i %
       · rw [if_neg h2, rd_ok (by omega), Res.bind_ok, wr_ok (by omega)]
         exact ⟨_, _, rfl, by simp only [List.length_set], by omega⟩
 
-theorem b64Loop_ok (rest : List Nat) : ∀ (i j : Nat) (out : List Nat), i + rest.length = out.length →
-    out.length % 4 = 0 → j = 3 * (i / 4) + (i % 4 - 1) → ∃ r, b64Loop rest i j out = .ok r := by
+theorem b64Loop_ok (rest : List Nat) : (∀ b ∈ rest, b < 256) → ∀ (i j n : Nat) (out : List Nat),
+    i + rest.length = n → n % 4 = 0 → 3 * (n / 4) ≤ out.length → j = 3 * (i / 4) + (i % 4 - 1) →
+    ∃ r, b64Loop rest i j out = .ok r := by
   induction rest with
-  | nil => intro i j out _ _ _; exact ⟨_, rfl⟩
+  | nil => intro _ i j n out _ _ _ _; exact ⟨_, rfl⟩
   | cons b rest ih =>
-    intro i j out hl hn hj
-    rw [b64Loop]
-    by_cases hg : base64GuardRejects b = true
-    · exact ⟨_, by rw [if_pos hg]⟩
-    · rw [if_neg hg]
-      obtain ⟨c, hc⟩ := b64_index_in_table b (by simpa using hg)
-      rw [hc, Res.bind_ok]
-      by_cases hinv : c = base64Invalid
-      · rw [if_pos hinv]
-        by_cases hp : b = base64Pad
-        · exact ⟨_, by rw [if_pos hp]⟩
-        · exact ⟨_, by rw [if_neg hp]⟩
-      · rw [if_neg hinv]
-        simp only [List.length_cons] at hl
-        obtain ⟨j', out', hs, hlen, hj'⟩ := b64Switch_ok i c j out hj (by omega) hn
-        rw [hs, Res.bind_ok]
-        exact ih (i + 1) j' out' (by omega) (by omega) hj'
+    intro hb i j n out hl hn hcap hj
+    obtain ⟨s, hs⟩ := b64Byte_ok b (hb b (List.mem_cons_self ..))
+    rw [b64Loop, hs, Res.bind_ok]
+    cases s with
+    | stop => exact ⟨_, rfl⟩
+    | reject => exact ⟨_, rfl⟩
+    | val c =>
+      simp only [List.length_cons] at hl
+      obtain ⟨j', out', hsw, hlen, hj'⟩ := b64Switch_ok i c j n out hj (by omega) hn hcap
+      simp only [hsw, Res.bind_ok]
+      exact ih (fun x hx => hb x (List.mem_cons_of_mem _ hx)) (i + 1) j' n out' (by omega) hn (by omega) hj'
 
-theorem fromBase64_ok (inp : List Nat) : ∃ r, fromBase64 inp = .ok r := by
+theorem fromBase64_ok (inp : List Nat) (hb : ∀ b ∈ inp, b < 256) : ∃ r, fromBase64 inp = .ok r := by
   unfold fromBase64
-  by_cases hm : inp.length &&& base64LenMask ≠ 0
-  · exact ⟨_, by rw [if_pos hm]⟩
-  · rw [if_neg hm]
-    rw [b64_mask_eq, and3] at hm
-    obtain ⟨r, hr⟩ := b64Loop_ok inp 0 0 (List.replicate inp.length 0) (by simp) (by simp; omega) (by omega)
+  rw [lenRejects_eq]
+  by_cases hm : inp.length % 4 ≠ 0
+  · exact ⟨_, by rw [if_pos (by simpa using hm)]⟩
+  · rw [if_neg (by simpa using hm)]
+    have h4 : inp.length % 4 = 0 := by omega
+    obtain ⟨r, hr⟩ := b64Loop_ok inp hb 0 0 inp.length (List.replicate (b64Reserve inp.length) 0) (by omega) h4
+      (by rw [List.length_replicate]; exact reserve_enough _ h4) (by omega)
     rw [hr, Res.bind_ok]
     cases r with
     | none => exact ⟨_, rfl⟩
